@@ -317,6 +317,11 @@ def _run(mod, ctx, t0):
             ctx.broken.append("build: lake build failed")
         if not dok:
             ctx.broken.append("build: driver (executable model) does not compile")
+            # never run the correspondence against a stale executable left over from an earlier build
+            try:
+                os.remove(driver_path(pid))
+            except OSError:
+                pass
     else:
         ctx.say(f"[{pid}] lake build ok: {mod.LEAN_TARGETS}")
     # 3. audit
